@@ -333,6 +333,28 @@ func (e *Engine) call(fn *ssa.Function, s *St, in *ssa.Call, ip int) (next []suc
 			next = append(next, succ{st, nil})
 		}
 		return next, nil, false
+	case ipfx + "convert.ToInteger": // little-endian two's complement, as the VM's CONVERT to Integer
+		if b, ok := args[0].(BytesV); ok {
+			return set(IntV{bytesToInt(b.b)})
+		}
+		return set(args[0]) // an Integer stays what it is; Null stays Null (arithmetic on it faults later)
+	case ipfx + "runtime.GetEntryScriptHash":
+		return set(constBytes(entryScriptHash))
+	case ipfx + "math.Abs":
+		x := args[0].(IntV).t
+		return set(IntV{Ite(Lt(x, I(0)), Sub(I(0), x), x)})
+	case ipfx + "math.Sign":
+		x := args[0].(IntV).t
+		return set(IntV{Ite(Lt(x, I(0)), I(-1), Ite(Lt(I(0), x), I(1), I(0)))})
+	case ipfx + "math.Max":
+		x, y := args[0].(IntV).t, args[1].(IntV).t
+		return set(IntV{Ite(Lt(x, y), y, x)})
+	case ipfx + "math.Min":
+		x, y := args[0].(IntV).t, args[1].(IntV).t
+		return set(IntV{Ite(Lt(x, y), x, y)})
+	case ipfx + "math.Within": // a <= x < b
+		x, a, b := args[0].(IntV).t, args[1].(IntV).t, args[2].(IntV).t
+		return set(BoolV{And(Le(a, x), Lt(x, b))})
 	case ipfx + "native/std.Serialize":
 		return set(SerV{e.freeze(s.State, args[0])})
 	case ipfx + "native/std.Deserialize":
